@@ -99,10 +99,10 @@ CLAIMS = {
  'C09': ('proof',
          'numpy->Lean extraction of the REAL source of clustering_coef_bd/wd/wu and transitivity_bu/bd/wu/wd on every run, and stored Lean proofs (all n, all real matrices; cuberoot as an abstract '
          'cbrt with cbrt x ^ 3 = x) that each value equals its triple-enumeration definition: Fagiolo numerators (1/2) sum_{j,h} (a_ij+a_ji)(a_jh+a_hj)(a_hi+a_ih) and denominators K(K-1)-2 K_bi, Onnela '
-         'intensities, the masking clause (no triangle => exactly 0), transitivity = ratio of TOTALS with no per-node masking (11 theorems). clustering_coef_bu and clustering_coef_wu_sign (loops) and the '
+         'intensities, the masking clause (no triangle => exactly 0), transitivity = ratio of TOTALS with no per-node masking (11 theorems). clustering_coef_bu (a loop over nodes) is proved with the VC generator: C[u] = (sum of G[v][w] over ordered pairs of neighbours of u) / (k (k-1)) for k >= 2 neighbours, 0 otherwise (loop invariant; the link between G[np.ix_(V, V)] and the neighbour-pair sum is a Lean theorem). clustering_coef_wu_sign (loops) and the '
          '[0,1] range clause are bounded only (pure-Python triple enumeration oracles on all graphs n<=5/4, weighted palettes, signed).',
          'A theorem that stops checking against the re-extracted definition is the reported obligation. The extraction (engine/lean/extract.py) is mechanical and re-done from /repo on every run; it drops float rounding (reals), dtype, decorators, copies/aliasing (value semantics), x/0 conventions; trusted: the extractor, Lean kernel, Mathlib.',
-         'mechanical numpy->Lean extraction + Lean 4/Mathlib proofs of the definitional identities; bounded triple-enumeration oracle for loop-based routines', '5/C09'),
+         'mechanical numpy->Lean extraction + Lean 4/Mathlib proofs of the definitional identities; pyvc + z3 loop invariant for clustering_coef_bu; bounded triple-enumeration oracle for clustering_coef_wu_sign and the range clause', '5/C09'),
  'C10': ('exploration',
          'Partly deductive: Lean proofs over the extracted real source (all n) of 11 reductions: strengths = degrees on 0/1 input (und, dir), in = out = degree on symmetric input, '
          'clustering_coef_wd = _bd and transitivity_wd = _bd on 0/1 input, _wd = _wu on symmetric input, transitivity_wu = _bu and _bd = _bu on symmetric 0/1 input. distance_wei = distance_bin (distance matrices) and efficiency_wei = efficiency_bin (global variant) on every 0/1 matrix are corollaries over the proved contracts '
